@@ -566,6 +566,42 @@ def pushEvtP (m : ModId) (e : Evt) : Prog Unit := do
 
 /-! ## The loop (ctx.c) -/
 
+/-- a one-shot subscription is removed once a message for it is read:
+`m_map_remove(mod->subscriptions, topic)` — whatever is registered under that topic now -/
+def consumeOneshot (s : St) (m : ModId) (md : Mod) (msg : Msg) : St :=
+  match msg.sub.bind (fun i => s.srcs[i]?) with
+  | some x =>
+    if x.oneshot then
+      match md.subs.find? (fun j => match s.srcs[j]? with | some y => y.registered && y.topic == x.topic | none => false) with
+      | some j => removeSrc s m j
+      | none => s
+    else s
+  | none => s
+
+/-- a one-shot subscription runs once: a message it matched before it fired (or before it was dropped) finds it gone —
+`m_map_get(mod->subscriptions, p->ps_src.topic) != p` -/
+def oneshotExpired (s : St) (md : Mod) (msg : Msg) : Bool :=
+  match msg.sub with
+  | some i =>
+    match s.srcs[i]? with
+    | some x => x.oneshot && !md.subs.contains i
+    | none => false
+  | none => false
+
+/-- the one-shot rule for one message read by a flush: state effect -/
+def flushStep (m : ModId) (s : St) (x : Msg) : St :=
+  match s.mods[m]? with
+  | some md => if oneshotExpired s md x then destroyMsg s x else consumeOneshot s m md x
+  | none => s
+
+/-- the one-shot rule over the messages a flush reads, in order: the messages that are handed over -/
+def flushKeep (m : ModId) : List Msg → St → List Msg
+  | [], _ => []
+  | x :: xs, s =>
+    match s.mods[m]? with
+    | some md => if oneshotExpired s md x then flushKeep m xs (flushStep m s x) else x :: flushKeep m xs (flushStep m s x)
+    | none => x :: flushKeep m xs s
+
 /-- loop-stop variant of `flush_pubsub_msgs` -/
 def flushModP (m : ModId) : Prog Int := do
   let s ← getSt
@@ -583,7 +619,11 @@ def flushModP (m : ModId) : Prog Int := do
         -- events still being batched arrived earlier: they are handed over first
         modify fun s => s.updMod m fun md => { md with pipe := some (rest.drop 1), batch := [],
                                                         pipeSkip := skipAfterRead md.pipeSkip q.length (q.length - (rest.drop 1).length) }
-        let evts := md.batch ++ pre.map fun x => ({ kind := .ps, msg := some x, src := x.sub } : Evt)
+        -- a one-shot subscription is consumed by the first message it matched; the others it matched are discarded
+        let s1 ← getSt
+        let kept := flushKeep m pre s1
+        modify fun s => pre.foldl (flushStep m) s
+        let evts := md.batch ++ kept.map fun x => ({ kind := .ps, msg := some x, src := x.sub } : Evt)
         callPubsubCb m evts
         let s ← getSt
         if pilled && isRP s m then do let _ ← stopP m true; pure 0 else pure 0
@@ -634,18 +674,6 @@ inductive PollEnt
   | bad (s : String)
   deriving Repr, DecidableEq
 
-/-- a one-shot subscription is removed once a message for it is read:
-`m_map_remove(mod->subscriptions, topic)` — whatever is registered under that topic now -/
-def consumeOneshot (s : St) (m : ModId) (md : Mod) (msg : Msg) : St :=
-  match msg.sub.bind (fun i => s.srcs[i]?) with
-  | some x =>
-    if x.oneshot then
-      match md.subs.find? (fun j => match s.srcs[j]? with | some y => y.registered && y.topic == x.topic | none => false) with
-      | some j => removeSrc s m j
-      | none => s
-    else s
-  | none => s
-
 /-- one entry of the batch (`for (i…)` body of `recv_events`); returns 1 when an event was received -/
 def recvOneP (p : PollEnt) : Prog Nat := do
   let s ← getSt
@@ -677,7 +705,11 @@ def recvOneP (p : PollEnt) : Prog Nat := do
       else match md.pipe with
       | some (msg :: rest) => do
         modify fun s => s.updMod m fun md => { md with pipe := some rest, pipeSkip := skipAfterRead md.pipeSkip (rest.length + 1) 1 }
-        -- one-shot subscription: consumed by its first message
+        -- one-shot subscription: consumed by its first message; later messages it had matched already are discarded
+        if oneshotExpired s md msg then do
+          modify fun s => destroyMsg s msg
+          pure 0
+        else do
         modify fun s => consumeOneshot s m md msg
         if msg.pill then do
           -- everything sent before the pill is delivered first, then the module is stopped
